@@ -133,7 +133,47 @@ SwitchArms(d) ==
 InlineRule(d) ==
   \A i \in 1..Len(d.dfa) : d.renumber[i].arm = ~(Len(d.dfa[i].preds) = 1 /\ ~d.dfa[i].initial)
 
+(***************************************************************************)
+(* dfa/simplify.rs as a function of the automaton before it: states        *)
+(* without transitions that are not initial are removed, edges into them   *)
+(* become accepting edges carrying their accept list, the remaining        *)
+(* indices (and the rule-set entry indices) shift down by the number of    *)
+(* removed states below them.  The real output must be exactly this.       *)
+(***************************************************************************)
+NoTrans(st) == Len(st.chars) = 0 /\ Len(st.ranges) = 0 /\ Len(st.any) = 0 /\ Len(st.eoi) = 0
+RemovedSet(pre) == {i \in 1..Len(pre) : NoTrans(pre[i]) /\ ~pre[i].initial}     \* 1-based
+ShiftIdx(pre, z) == z - Cardinality({r \in RemovedSet(pre) : r - 1 < z})          \* z 0-based
+MapT(pre, t) == IF (t.s + 1) \in RemovedSet(pre)
+                THEN [s |-> -1, acc |-> pre[t.s + 1].acc]
+                ELSE [s |-> ShiftIdx(pre, t.s), acc |-> <<>>]
+Kept(pre) == SortedSeq({i \in 1..Len(pre) : i \notin RemovedSet(pre)})
+SimplifiedState(pre, st) ==
+  [initial   |-> st.initial,
+   chars     |-> [i \in 1..Len(st.chars) |-> [c |-> st.chars[i].c, t |-> MapT(pre, st.chars[i].t)]],
+   ranges    |-> [i \in 1..Len(st.ranges) |-> [lo |-> st.ranges[i].lo, hi |-> st.ranges[i].hi, t |-> MapT(pre, st.ranges[i].t)]],
+   any       |-> [i \in 1..Len(st.any) |-> MapT(pre, st.any[i])],
+   eoi       |-> [i \in 1..Len(st.eoi) |-> MapT(pre, st.eoi[i])],
+   acc       |-> st.acc,
+   preds     |-> SortedSeq({ShiftIdx(pre, st.preds[i]) : i \in 1..Len(st.preds)}),
+   backtrack |-> st.backtrack]
+SimplifyOK(d) ==
+  LET pre == d.dfa_pre
+      kept == Kept(pre)
+  IN  /\ Len(d.dfa) = Len(kept)
+      /\ \A k \in 1..Len(kept) : d.dfa[k] = SimplifiedState(pre, pre[kept[k]])
+      /\ \A k \in 1..Len(d.entry) :
+           \E j \in 1..Len(d.entry_pre) :
+             /\ d.entry_pre[j].name = d.entry[k].name
+             /\ d.entry[k].idx = ShiftIdx(pre, d.entry_pre[j].idx)
+
+\* codegen/ctx.rs renumber_state: shift by the number of inlined states below
+RenumberOK(d) ==
+  \A i \in 1..Len(d.dfa) :
+    d.renumber[i].renum =
+      (i - 1) - Cardinality({j \in 1..(i - 1) : Len(d.dfa[j].preds) = 1})
+
 IndexMaps == ArmsInjective(D) /\ ArmPatterns(D) /\ SwitchArms(D) /\ InlineRule(D)
+             /\ SimplifyOK(D) /\ RenumberOK(D)
 
 \* Disagreements are reported (with the path that leads to the pair) rather than stopping TLC:
 \* the harness turns each into a witness input and confirms it on the real lexer.
@@ -143,6 +183,7 @@ Report ==
                                 acc |-> AcceptSame, moves |-> MovesSame, entry |-> EntryInitial])>>)
   /\ (path = <<>> /\ mode = "post" /\ which = 1 /\ ~IndexMaps) =>
         PrintT(<<"BADMAP", ToJson([p |-> P.id, inj |-> ArmsInjective(D), pat |-> ArmPatterns(D),
-                                   sw |-> SwitchArms(D), inl |-> InlineRule(D)])>>)
+                                   sw |-> SwitchArms(D), inl |-> InlineRule(D),
+                                   simp |-> SimplifyOK(D), ren |-> RenumberOK(D)])>>)
   /\ (path = <<>> /\ mode = "post" /\ which = 1) => PrintT(<<"SEEN", ToJson([p |-> P.id])>>)
 =============================================================================
